@@ -27,11 +27,13 @@
 (*                                                                         *)
 (* Output, one JSON line per sentence s (n = Len(s)):                      *)
 (*   {"s": tokens, "acc": 1,                                               *)
-(*    "del": [n x 0/1]        verdict for s without token p               *)
-(*    "ins": [(n+1) x [15 x 0/1]]  verdict for token t inserted before p   *)
-(*    "rep": [n x [15 x 0/1]]      verdict for token p replaced by t}      *)
+(*    "del": [n x v]          verdict for s without token p               *)
+(*    "ins": [(n+1) x [15 x v]]    verdict for token t inserted before p   *)
+(*    "rep": [n x [15 x v]]        verdict for token p replaced by t}      *)
+(* with verdict v: 1 = sentence, 0 = not a sentence, 2 = unsettled (see    *)
+(* LenientNames below),                                                    *)
 (* (t numbered as in TokSeq) and, in mode "short", one line per token      *)
-(* string p with Len(p) <= 3:  {"p": tokens, "acc": 0/1, "ext": [15 x 0/1]} *)
+(* string p with Len(p) <= 3:  {"p": tokens, "acc": v, "ext": [15 x v]}     *)
 (* where ext[t] is the verdict for p followed by token t; together these   *)
 (* are ALL token strings of length <= 4.                                   *)
 (*                                                                         *)
@@ -50,36 +52,46 @@ NTok == 15
 Tokens == {TokSeq[i] : i \in 1..NTok}
 
 Tok(ts, i) == IF i >= 1 /\ i <= Len(ts) THEN ts[i] ELSE "EOF"
-IsName(t) == t \in {"Ident", "String"}
 
-Basic(ts, i) ==
+\* NT = the tokens that may stand where the grammar says Name
+StrictNames  == {"Ident", "String"}
+\* The documentation does not say whether a word that is spelled like a
+\* keyword may be an unquoted attribute name (attributes:AND).  A token string
+\* that becomes a sentence when such words are read as Ident in Name position
+\* is UNSETTLED: verdict 2, kept out of the accept/reject parity oracle.
+LenientNames == StrictNames \cup {"AND", "OR", "NOT", "attributes", "hasPrefix"}
+
+Basic(ts, i, NT) ==
   IF Tok(ts, i) = "attributes" THEN
-    IF Tok(ts, i + 1) = ":" /\ IsName(Tok(ts, i + 2)) THEN i + 3
-    ELSE IF /\ Tok(ts, i + 1) = "." /\ IsName(Tok(ts, i + 2))
+    IF Tok(ts, i + 1) = ":" /\ Tok(ts, i + 2) \in NT THEN i + 3
+    ELSE IF /\ Tok(ts, i + 1) = "." /\ Tok(ts, i + 2) \in NT
             /\ Tok(ts, i + 3) \in {"=", "!="} /\ Tok(ts, i + 4) = "String" THEN i + 5
     ELSE 0
   ELSE IF /\ Tok(ts, i) = "hasPrefix" /\ Tok(ts, i + 1) = "(" /\ Tok(ts, i + 2) = "attributes"
-          /\ Tok(ts, i + 3) = "." /\ IsName(Tok(ts, i + 4)) /\ Tok(ts, i + 5) = ","
+          /\ Tok(ts, i + 3) = "." /\ Tok(ts, i + 4) \in NT /\ Tok(ts, i + 5) = ","
           /\ Tok(ts, i + 6) = "String" /\ Tok(ts, i + 7) = ")" THEN i + 8
   ELSE 0
 
-RECURSIVE Term(_, _), Cond(_, _), More(_, _, _)
-Term(ts, i) ==
+RECURSIVE Term(_, _, _), Cond(_, _, _), More(_, _, _, _)
+Term(ts, i, NT) ==
   LET j == IF Tok(ts, i) \in {"NOT", "-"} THEN i + 1 ELSE i IN
   IF Tok(ts, j) = "("
-  THEN LET e == Cond(ts, j + 1) IN IF e # 0 /\ Tok(ts, e) = ")" THEN e + 1 ELSE 0
-  ELSE Basic(ts, j)
+  THEN LET e == Cond(ts, j + 1, NT) IN IF e # 0 /\ Tok(ts, e) = ")" THEN e + 1 ELSE 0
+  ELSE Basic(ts, j, NT)
 \* i is just after a Term: consume (kw Term)*
-More(ts, i, kw) ==
+More(ts, i, kw, NT) ==
   IF Tok(ts, i) = kw
-  THEN LET e == Term(ts, i + 1) IN IF e = 0 THEN 0 ELSE More(ts, e, kw)
+  THEN LET e == Term(ts, i + 1, NT) IN IF e = 0 THEN 0 ELSE More(ts, e, kw, NT)
   ELSE i
-Cond(ts, i) ==
-  LET e == Term(ts, i) IN
+Cond(ts, i, NT) ==
+  LET e == Term(ts, i, NT) IN
   IF e = 0 THEN 0
-  ELSE IF Tok(ts, e) \in {"AND", "OR"} THEN More(ts, e, Tok(ts, e)) ELSE e
+  ELSE IF Tok(ts, e) \in {"AND", "OR"} THEN More(ts, e, Tok(ts, e), NT) ELSE e
 
-Accepts(ts) == Cond(ts, 1) = Len(ts) + 1
+Accepts(ts) == Cond(ts, 1, StrictNames) = Len(ts) + 1
+AcceptsLenient(ts) == Cond(ts, 1, LenientNames) = Len(ts) + 1
+\* 1 = sentence, 0 = not a sentence under either reading, 2 = unsettled
+Verdict(ts) == IF Accepts(ts) THEN 1 ELSE IF AcceptsLenient(ts) THEN 2 ELSE 0
 
 ---------------------------------------------------------------------------
 \* generator
@@ -112,10 +124,10 @@ B(e) == IF e THEN 1 ELSE 0
 
 SentenceCase(s) ==
   [s   |-> s,
-   acc |-> B(Accepts(s)),
-   del |-> [p \in 1..Len(s) |-> B(Accepts(Del(s, p)))],
-   ins |-> [p \in 1..(Len(s) + 1) |-> [t \in 1..NTok |-> B(Accepts(Ins(s, p, TokSeq[t])))]],
-   rep |-> [p \in 1..Len(s) |-> [t \in 1..NTok |-> B(Accepts(Rep(s, p, TokSeq[t])))]]]
+   acc |-> Verdict(s),
+   del |-> [p \in 1..Len(s) |-> Verdict(Del(s, p))],
+   ins |-> [p \in 1..(Len(s) + 1) |-> [t \in 1..NTok |-> Verdict(Ins(s, p, TokSeq[t]))]],
+   rep |-> [p \in 1..Len(s) |-> [t \in 1..NTok |-> Verdict(Rep(s, p, TokSeq[t]))]]]
 
 \* agreement first, then the case
 EmitAst(f) ==
@@ -161,7 +173,7 @@ ASSUME Mode = "agree" =>
   /\ PrintT(<<"AGREE-OK", Shard, Len(S1) * 8 + Len(S2) * 64 + Len(S3) * 512>>)
 
 \* all token strings of length <= 4
-ShortCase(p) == [p |-> p, acc |-> B(Accepts(p)), ext |-> [t \in 1..NTok |-> B(Accepts(Append(p, TokSeq[t])))]]
+ShortCase(p) == [p |-> p, acc |-> Verdict(p), ext |-> [t \in 1..NTok |-> Verdict(Append(p, TokSeq[t]))]]
 ASSUME Mode = "short" =>
   /\ Mine(0) => PrintT(ToJson(ShortCase(<<>>)))
   /\ \A a \in 1..NTok : Mine(a) =>
